@@ -681,6 +681,9 @@ func (e *Engine) havocLoop(s *State, fr *Frame, li *LoopInfo) {
 // havocLoopGhosts forgets every ghost variable that a "set" clause anchored inside the loop body may assign:
 // in the arbitrary iteration its value is whatever earlier iterations left (constrained only by the invariants).
 func (e *Engine) havocLoopGhosts(s *State, fr *Frame, li *LoopInfo) {
+	if os.Getenv("GOVC_NO_GHOSTHAVOC") != "" {
+		return
+	}
 	c := fr.contract
 	if c == nil || len(c.Ats) == 0 || len(c.Ghosts) == 0 {
 		return
